@@ -40,4 +40,11 @@ def hubSync (hash : Bytes → H) (cname : HTree → List (List Char) → H → L
     (t : HTree) (localFiles : List (List (List Char) × Bytes)) : HTree × Counters :=
   localFiles.foldl (syncFile hash cname (fun k => (hget t k).map hash)) (t, {})
 
+/-- what `HubClient` hands to the hub's stdin, in order -/
+inductive Sent (P H : Type)
+  | putFrame (path : P) (expected : Option H) (len : Nat) (hash : H)   -- `write_frame(&Request::Put { … })`
+  | raw (bytes : Bytes)                                                 -- `io::copy(file, w)`: the content, unframed
+  | flush
+  deriving DecidableEq, Repr
+
 end Copia.HubSync
